@@ -7,4 +7,6 @@ CONSTANTS
   AtomicSet = {TRUE, FALSE}
   TrackLast = TRUE
   UseRoller = TRUE
+  SplitNew = FALSE
+  NewLoads = 1
 CHECK_DEADLOCK FALSE
